@@ -15,6 +15,12 @@ def texts(tier, rng, n):
             if f: out.append(f[0])
         if rng.random() < 0.3:
             out.append(mutate(rng, b))
+        if rng.random() < 0.25:
+            # a byte order mark / zero-width character in front of some line (e.g. files concatenated with `cat`)
+            lines = b.split(b"\n")
+            i = rng.randrange(len(lines))
+            lines[i] = rng.choice([b"\xef\xbb\xbf", b"\xe2\x80\x8b", b"\xef\xbb\xbf\xef\xbb\xbf"]) + lines[i]
+            out.append(b"\n".join(lines))
     out += [b"", b"\n", b"\n\n\n", b"a", b"2020-01-01", b"2020-01-01\n\n2020-01-02\r\n\r\n\r\n2020-01-03\n    1h \xe8\xaa\xad\n\n", b"2020-01-01\nfoo\xc3bar baz qux\n\n2020-01-02\n    1h\n",
             "2020-01-01\n    1h 読む読む読む読む\n  \n \t\n2020-01-02\n".encode(), b"\xff\xfe\n\n\x80\x80\x80\n"]
     return out
